@@ -313,7 +313,9 @@ class RenderNode(Node):
                 )
 
         partial_name = self.name.value if isinstance(self.name, StringLiteral) else ""
-        partial_key = hash((partial_name, *[arg.name for arg in self.args]))
+        # Every name the tag adds to the partial's scope, including the bound
+        # variable or alias, distinguishes one use of the partial from another.
+        partial_key = hash((partial_name, *[str(ident) for ident in scope]))
 
         # Static analysis will use the parent template name if Partial.name is
         # empty. Which is what we want for inline snippets.
